@@ -56,6 +56,26 @@ def main(path):
                     print('      %s%3d %s' % ('>>' if k == i - 1 else '  ', k + 1, {a: b for a, b in e.items() if b not in (0, '', -1, []) and a != 'i'}))
             if mine or r['status'] != 'ok':
                 reproduced += 1
+        elif rp.get('kind') == 'dispatch':
+            from .props import dispatch
+
+            class _V:
+                coverage = {}
+
+                def add(self, *a):
+                    pass
+
+                def add_failure(self, *a):
+                    pass
+            rows = dispatch.table(_V(), prop)
+            row = [r for r in rows if r['c'] == rp['case']][0]
+            obs = dispatch.run_row(rp['ep'], rp['case'], rp.get('mode', 'tcp'), rp.get('chunk'))
+            now = dispatch.judge(prop, rp['ep'], rp['case'], row, obs)
+            print('    row %s -> table %s' % (rp['case'], row['r']))
+            print('    endpoint %s now: told %s, queued %s, registered %s, probes %s' % (rp['ep'], obs['told'], obs['out'], obs['reg'], obs['probe_futures']))
+            print('    clauses failing now: %s' % sorted(set(c for c, _ in now if c != 'DRIFT')))
+            if any(c == f.get('clause') for c, _ in now):
+                reproduced += 1
         else:
             print('    (component-level case; re-run the property check to re-evaluate) %s' % json.dumps(rp, default=str)[:400])
             rc = subprocess.run([os.path.join(common.ROOT, 'check'), prop, '--tier', 'quick'], env=dict(os.environ, VERIF_NO_EVIDENCE='1'),
